@@ -3,6 +3,7 @@ package main
 // C09: pairwise local alignment.
 
 import (
+	"math"
 	"fmt"
 	"math/rand"
 	"os"
@@ -28,7 +29,21 @@ func c09(args []string) error {
 		usemat              bool
 		match, mis, op, ext float64
 	}
+	// scale: 2 for dyadic schemes, 20 for schemes with one decimal; warm: the aligner first serves another scheme
+	// (higher scores) and is then reconfigured with SetScore / SetGap*: the second Alignment() is the one recorded
+	scaleOf := func(sc sch) int {
+		for _, v := range []float64{sc.match, sc.mis, sc.op, sc.ext} {
+			if v*2 != math.Trunc(v*2) {
+				return 20
+			}
+		}
+		return 2
+	}
+	warmNext := false
 	one := func(s1, s2 string, sc sch, atg bool, tag string) {
+		warm := warmNext && !sc.usemat && !atg
+		warmNext = false
+		scale := scaleOf(sc)
 		q1 := align.NewSequence("s1", []uint8(s1), "")
 		q2 := align.NewSequence("s2", []uint8(s2), "")
 		algo := align.ALIGN_ALGO_SW
@@ -40,6 +55,16 @@ func c09(args []string) error {
 		var st1, st2, en1, en2, nm, nmm, ng, ln int
 		class, _ := guarded(10e9, func() error {
 			pw := align.NewPwAligner(q1, q2, algo)
+			if warm {
+				if r.Intn(2) == 0 {
+					pw.SetScore(sc.match+3, sc.mis)
+				}
+				pw.SetGapOpenScore(-1)
+				pw.SetGapExtendScore(-0.5)
+				if _, e := pw.Alignment(); e != nil {
+					return e
+				}
+			}
 			if !sc.usemat {
 				pw.SetScore(sc.match, sc.mis)
 			}
@@ -68,6 +93,9 @@ func c09(args []string) error {
 			}
 			return nil
 		})
+		if class != OutOk && class != OutErr { // a panic or a hang is not an error return
+			class, ln = OutOk, -7
+		}
 		// the same request through the command line (goalign sw): score and rows must be those of the library
 		// configured as documented (a lone --match or --mismatch selects match/mismatch scoring with the other default)
 		cliNote := ""
@@ -104,13 +132,19 @@ func c09(args []string) error {
 				os.RemoveAll(tmpd)
 			}
 		}
-		z2 := func(f float64) string { return coqZ(int(f * 2)) }
-		term := fmt.Sprintf("mk %s %s %s %s %s %s %s %s %s %s %s %s %s %s %s %s %s %s %s %s %s %s",
-			coqBool(atg), coqBool(sc.usemat), z2(sc.match), z2(sc.mis), z2(sc.op), z2(sc.ext), coqStr(s1), coqStr(s2),
+		z2 := func(f float64) string {
+			v := math.Round(f * float64(scale))
+			if math.Abs(v-f*float64(scale)) > 1e-6 {
+				v = -999999 // not a multiple of 1/scale: no alignment scores that
+			}
+			return coqZ(int(v))
+		}
+		term := fmt.Sprintf("mk %s %s %s %s %s %s %s %s %s %s %s %s %s %s %s %s %s %s %s %s %s %s %s",
+			coqZ(scale), coqBool(atg), coqBool(sc.usemat), z2(sc.match), z2(sc.mis), z2(sc.op), z2(sc.ext), coqStr(s1), coqStr(s2),
 			coqBool(class != OutOk), z2(score), coqStr(r1), coqStr(r2), coqZ(st1), coqZ(st2), coqZ(en1), coqZ(en2),
 			coqZ(nm), coqZ(nmm), coqZ(ng), coqZ(ln), coqStr(q1.Sequence()), coqStr(q2.Sequence()))
 		w.add(term, map[string]interface{}{"op": "Alignment", "atg": atg, "s1": s1, "s2": s2, "scheme": fmt.Sprintf("%+v", sc), "class": class,
-			"score": score, "row1": r1, "row2": r2, "starts": []int{st1, st2}, "ends": []int{en1, en2}, "counts": []int{nm, nmm, ng, ln}, "tag": tag, "cli": cliNote})
+			"score": score, "row1": r1, "row2": r2, "starts": []int{st1, st2}, "ends": []int{en1, en2}, "counts": []int{nm, nmm, ng, ln}, "tag": tag, "cli": cliNote, "scale": scale, "warm": warm})
 		stats[tag+":"+class]++
 	}
 
@@ -120,6 +154,9 @@ func c09(args []string) error {
 		// opening much dearer than extending, a match dearer than an opening
 		{true, 0, 0, -3, -0.5}, {true, 0, 0, -4, -1}, {false, 5, -4, -3, -0.5}, {false, 3, -1, -2.5, -0.5}, {false, 4, -1, -3, -1},
 	}
+
+	decimal := []sch{{false, 2, -2, -1.1, -0.3}, {false, 4, -2, -0.8, -0.3}, {false, 1, -1, -1.7, -0.1}, {false, 3, -1.5, -0.9, -0.2},
+		{true, 0, 0, -10.1, -0.7}, {true, 0, 0, -1.3, -0.1}, {false, 2, -1, -0.6, -0.6}}
 
 	// exhaustive: all pairs up to a small length over a reduced alphabet
 	maxlen := 3
@@ -195,7 +232,23 @@ func c09(args []string) error {
 		if r.Intn(25) == 0 {
 			s2 = s2 + "!" // outside every alphabet: error expected
 		}
-		one(s1, s2, sc, r.Intn(6) == 0, "random")
+		if r.Intn(60) == 0 { // an empty sequence: an error, not a panic
+			if r.Intn(2) == 0 {
+				s1 = ""
+			} else {
+				s2 = ""
+			}
+		}
+		tag := "random"
+		if r.Intn(6) == 0 { // penalties that are not exactly representable in binary
+			sc = decimal[r.Intn(len(decimal))]
+			tag = "decimal"
+			if r.Intn(2) == 0 {
+				s1, s2 = randSeqOver("AC", 5+r.Intn(8)), randSeqOver("AC", 5+r.Intn(10))
+			}
+		}
+		warmNext = r.Intn(4) == 0
+		one(s1, s2, sc, r.Intn(6) == 0, tag)
 	}
 	if g.only >= 0 {
 		w.terms = w.terms[g.only : g.only+1]
